@@ -168,7 +168,7 @@ where
 
                     // Committing shuold never need to send an immediate disposition
                     if let Some(disposition) =
-                        self.session.on_incoming_transfer(transfer, payload).await?
+                        self.session.deliver_incoming_transfer(transfer, payload).await?
                     {
                         self.control
                             .send(SessionControl::Disposition(disposition))
@@ -341,7 +341,22 @@ where
             .get_mut(&txn_id)
             .ok_or(S::Error::UnknownTxnId)?;
 
+        // The transfer has arrived, whenever it is handed to its link: the session's counters and
+        // the flows that state them count it now, and not again at the discharge
+        self.session.on_incoming_transfer_received();
         Ok(txn.on_incoming_post(txn_id, transfer, payload))
+    }
+
+    fn on_incoming_transfer_received(&mut self) {
+        self.session.on_incoming_transfer_received()
+    }
+
+    async fn deliver_incoming_transfer(
+        &mut self,
+        transfer: Transfer,
+        payload: Payload,
+    ) -> Result<Option<Disposition>, Self::Error> {
+        self.session.deliver_incoming_transfer(transfer, payload).await
     }
 
     fn on_incoming_disposition(
